@@ -159,6 +159,8 @@ fn plain_modpow(base: &BigUint, exp_data: &[BigDigit], modulus: &BigUint) -> Big
 
     let mut base = base % modulus;
     for _ in 0..i {
+        #[cfg(num_bigint_verif)]
+        crate::verif_probe::hit(32);
         for _ in 0..big_digit::BITS {
             base = &base * &base % modulus;
         }
